@@ -27,7 +27,28 @@ def flattened_output_explicit_shape(case):
     return c06.flattened_output_explicit_shape(case)
 
 
-EXCLUDED = {"flattened_output_explicit_shape": flattened_output_explicit_shape}
+def merger_restores_input_spelling(case):
+    """
+    F-C11-3: a merger bound to a flattened input whose final rank order spells the declared one (A: [M, K, N], (M, K) flattened,
+    init [N, MK], final [MK, N]): after the merger's two swizzles the compiler's name for the tensor has lost its _flat mark
+    and is A_MKN again, so the emitted statement re-binds the user's input variable to the flattened tensor.
+    """
+    spec = case.get("spec")
+    if not spec or not (spec.get("extra") or {}).get("bindings"):
+        return False
+    decl = S.decl_of(spec)
+    for entries in spec["extra"]["bindings"].values():
+        for x in entries:
+            for b in x.get("bindings", []):
+                if "final-ranks" in b and b.get("tensor") in decl:
+                    fin = list(b["final-ranks"])
+                    if fin != decl[b["tensor"]] and "".join(fin) == "".join(decl[b["tensor"]]):
+                        return True
+    return False
+
+
+EXCLUDED = {"flattened_output_explicit_shape": flattened_output_explicit_shape,
+            "merger_restores_input_spelling": merger_restores_input_spelling}
 
 
 def loop_headers(text):
@@ -62,21 +83,23 @@ def run_compare(case, what=""):
     cp = dict(case, spec=plain)
     run_p = oracle.run_or_violation(tp, cp, what="plain-mode program" + what)
     oracle.compare_outputs(cp, run_p, expected=exp, what="plain-mode program" + what)
-    # every tensor variable that both programs leave behind (inputs, swizzled / partitioned versions, intermediates) holds the
-    # same tensor in both: the metrics-only statements may add variables, never change what a shared name holds
+    # the variables under which the user supplied the inputs still hold those tensors (a later Einsum, or the user, reads them
+    # again): the metrics-only statements (merger swizzles) may add variables, never re-bind or change an input
     from .. import hfmodel as M_
-    for var in sorted(set(run_m["ns"]) & set(run_p["ns"])):
-        a, b = run_m["ns"][var], run_p["ns"][var]
-        if not (isinstance(a, M_.Tensor) and isinstance(b, M_.Tensor)) or "_" not in var:
-            continue
+    for var, t in run_m["supplied"].items():
+        now = run_m["ns"].get(var)
+        # (dynamic partitioning re-creates an input from its own root fiber under the same name, in both modes: same ranks, same data)
         try:
-            da, db = (a.getRankIds(), a.toDict()), (b.getRankIds(), b.toDict())
+            same = isinstance(now, M_.Tensor) and M_.snapshot(now) == run_m["snaps"][var]
         except M_.ModelError:
-            continue
-        if da != db:
-            raise Violation("variable %s holds rank ids %r / %d elements after the metrics-mode program%s but %r / %d elements after "
-                            "the plain-mode program" % (var, da[0], len(da[1]), what, db[0], len(db[1])),
-                            sig="shared-variable-differs", details={"yaml": S.to_yaml(spec), "text": tm, "plain_text": tp})
+            same = False
+        if not same:
+            raise Violation("the metrics-mode program%s re-binds the input variable %s to something else (now %s with rank ids %r); "
+                            "the plain-mode program leaves it alone" % (what, var, type(now).__name__, getattr(now, "rank_ids", None)),
+                            sig="input-variable-rebound", details={"yaml": S.to_yaml(spec), "text": tm, "plain_text": tp})
+        if M_.snapshot(t) != run_m["snaps"][var]:
+            raise Violation("the metrics-mode program%s modifies the input %s" % (what, var),
+                            sig="input-modified", details={"yaml": S.to_yaml(spec), "text": tm, "plain_text": tp})
     hm, hp = loop_headers(tm), loop_headers(tp)
     differs = hm != hp
     swz_m = len(re.findall(r"swizzleRanks", tm)) != len(re.findall(r"swizzleRanks", tp))
